@@ -43,6 +43,9 @@ def workdir(prop, fresh=True):
     return d
 
 
+_BUILT = []
+
+
 def build_harness(race=False):
     """go build the driver against /repo's *current working tree* (replace directive)."""
     return _build_harness(race)
@@ -58,7 +61,17 @@ def _build_harness(race=False):
     name = "vdrive-race" if race else "vdrive"
     tmp = os.path.join(BUILD, "%s.%d.tmp" % (name, os.getpid()))
     out = os.path.join(BUILD, "%s.%d" % (name, os.getpid()))
-    cmd = ["go", "build", "-tags", "verif"] + (["-race"] if race else []) + ["-o", tmp, "./cmd/vdrive"]
+    modargs = []
+    if os.path.realpath(REPO) != "/repo":
+        # VERIF_REPO: build against another checkout (seeded-change drills work on a scratch worktree, never on /repo):
+        # a private module file whose replace directive points there
+        alt = os.path.join(HARNESS, "go.alt%d.mod" % os.getpid())
+        with open(os.path.join(HARNESS, "go.mod")) as f, open(alt, "w") as g:
+            g.write(f.read().replace("=> /repo", "=> " + os.path.realpath(REPO)))
+        shutil.copy(os.path.join(HARNESS, "go.sum"), alt[:-4] + ".sum")
+        modargs = ["-modfile", alt]
+        _BUILT.extend([alt, alt[:-4] + ".sum"])
+    cmd = ["go", "build", "-tags", "verif"] + modargs + (["-race"] if race else []) + ["-o", tmp, "./cmd/vdrive"]
     t = time.time()
     p = subprocess.run(cmd, cwd=HARNESS, env=goenv(), capture_output=True, text=True)
     if p.returncode != 0:
@@ -72,9 +85,6 @@ def _build_harness(race=False):
     _BUILT.append(out)
     log("built %s in %.1fs" % (name, time.time() - t))
     return out
-
-
-_BUILT = []
 
 
 def remove_built():
